@@ -52,7 +52,10 @@ type seqOp struct {
 func runStream(t *testing.T, tape *Tape, w *World, variant string, steps int, out *runOutcome) {
 	r := newSetupRun(tape, w, "stream")
 	out.stats = r.Stats
-	defer func() { out.trace, out.probes, out.hashes = r.Trace, r.M.Probes, r.Hashes; out.sample = sampleOf(r.Trace) }()
+	defer func() {
+		out.trace, out.probes, out.hashes = r.Trace, r.M.Probes, r.Hashes
+		out.sample = sampleOf(r.Trace)
+	}()
 	tape.Frame()
 	r.nTopics, r.nSubs = 1, 2
 	if v := r.xTopic(0); v != nil {
@@ -190,7 +193,7 @@ func runStream(t *testing.T, tape *Tape, w *World, variant string, steps int, ou
 				}
 				seq := S.commitSeq
 				t1 := time.Now()
-				pending = append(pending, seqOp{seq, func() *Violation { return r.M.Pull(sub, 1 << 30, recv, t1.Add(-time.Millisecond), t1) }})
+				pending = append(pending, seqOp{seq, func() *Violation { return r.M.Pull(sub, 1<<30, recv, t1.Add(-time.Millisecond), t1) }})
 			}}
 			cl.err = w.StreamingPull(fs)
 			cl.ended = true
@@ -220,6 +223,9 @@ func runStream(t *testing.T, tape *Tape, w *World, variant string, steps int, ou
 	for i := 0; i < na; i++ {
 		id := fmt.Sprintf("actor%d", i)
 		rounds := 2 + tape.Intn(8)
+		if externalOnly {
+			rounds += 6
+		}
 		c.spawn(id, func(ctx context.Context) {
 			for k := 0; k < rounds; k++ {
 				S.Yield(ctx, "round")
@@ -240,6 +246,9 @@ func runStream(t *testing.T, tape *Tape, w *World, variant string, steps int, ou
 				kind := tape.Intn(4)
 				if externalOnly {
 					kind = 3
+					if len(ids) > 1 && tape.Bool(70) {
+						ids = ids[:1] // many small separate ack transactions
+					}
 				}
 				for _, a := range ids {
 					delete(cl.outstanding, a)
